@@ -14,3 +14,4 @@ from . import parts  # noqa
 from . import v1version  # noqa
 from . import version_str  # noqa
 from . import config_read  # noqa
+from . import parse_overlap  # noqa
